@@ -282,12 +282,28 @@ Definition gagree (g : gcase) : bool :=
   | GB c => obs_eqb (model (c_in c)) (c_obs c)
   | GX c => obs_eqb (xmodel (xc_in c)) (xc_obs c)
   end.
-(* a case over the larger alphabet is judged by the property read with
-   "regular file" widened to "file that is neither a directory nor a link" *)
+(* a case over the larger alphabet is judged as follows: returned certificates
+   must be exactly those of the store read with "regular file" widened to "file
+   that is neither a directory nor a link" (nothing from elsewhere, no partial
+   set); an error is accepted when the store is not loadable in the property's
+   literal reading, i.e. also whenever an entry of the store is an other file -
+   an implementation that refuses FIFOs is not reported as violating the property *)
+Definition is_otherb (n : xnode) : bool := match n with XOther _ => true | _ => false end.
+Definition store_has_other (i : xinput) : bool :=
+  match xlstat (xi_root i) (store_path (xi_ty i) (xi_name i)) with
+  | XLNode (XDir es) => existsb (fun e => is_otherb (snd e)) es
+  | _ => false
+  end.
+Definition xspec_ok (i : xinput) (o : obs) : bool :=
+  match o with
+  | OOk _ => spec_ok (erase_input i) o
+  | OErr _ _ _ =>
+      store_has_other i || match expected (erase_input i) with None => true | Some _ => false end
+  end.
 Definition gok (g : gcase) : bool :=
   match g with
   | GB c => negb (wf (c_in c)) || spec_ok (c_in c) (c_obs c)
-  | GX c => spec_ok (erase_input (xc_in c)) (xc_obs c)
+  | GX c => xspec_ok (xc_in c) (xc_obs c)
   end.
 Definition gfp (g : gcase) : N :=
   match g with
@@ -309,3 +325,13 @@ Proof. unfold xmodel, model, load, erase_input. cbn [i_root i_ty i_name]. now re
 
 Lemma xmodel_spec_ok i : spec_ok (erase_input i) (xmodel i) = true.
 Proof. rewrite xmodel_erase. now apply model_spec_ok. Qed.
+
+Lemma xmodel_xspec_ok i : xspec_ok i (xmodel i) = true.
+Proof.
+  pose proof (xmodel_spec_ok i) as H. unfold xspec_ok. destruct (xmodel i) as [ids|c k e]; [exact H|].
+  unfold spec_ok in H. destruct (expected (erase_input i)); [discriminate|]. apply orb_true_r.
+Qed.
+
+Lemma xmodel_meets_oracles i :
+  spec_ok (erase_input i) (xmodel i) = true /\ xspec_ok i (xmodel i) = true.
+Proof. split; [exact (xmodel_spec_ok i) | exact (xmodel_xspec_ok i)]. Qed.
